@@ -498,6 +498,18 @@ fn start_server(mut server: Server, cfg: Cfg) -> Result<std::net::SocketAddr> {
             let cfg = cfg.clone();
             // server-initiated unidirectional streams carrying keyed data
             let handle = connection.handle();
+            if cfg.sclose_at_ms > 0 {
+                let h = handle.clone();
+                let at = cfg.sclose_at_ms;
+                spawn(async move {
+                    let now = trace::now() / 1000;
+                    if at > now {
+                        io::time::delay(Duration::from_millis(at - now)).await;
+                    }
+                    log("s", "app-close".to_string());
+                    h.close(43u32.into());
+                });
+            }
             for i in 0..cfg.suni {
                 let mut h = handle.clone();
                 let cfg = cfg.clone();
